@@ -1,6 +1,6 @@
 /-
   A small model of types.go:DecodeType restricted to the type oids the row families use:
-  bool 16, "char" 18, name 19, int8 20, int2 21, int4 23, text 25, oid 26, bpchar 1042, varchar 1043 and
+  bool 16, bytea 17, "char" 18, name 19, int8 20, int2 21, int4 23, text 25, oid 26, bpchar 1042, varchar 1043 and
   every oid that reaches decodeScalar's `default` (safeString).  Array oids (keys of arrayElemTypes) and the
   other cases of the switch are NOT modelled here (area `scalars` does); the row generators never use them.
   `strings.ToValidUTF8`/`utf8.Valid` are modelled from their documented behaviour (maximal runs of bytes
@@ -54,6 +54,7 @@ def safeString (bs : Bytes) : Bytes := safeStringGo (bs.length + 1) bs false
 def dec : Dec := fun data oid =>
   if data.length = 0 then pure .nil
   else if oid = 16 then do pure (.bool ((← idx data 0) != 0))
+  else if oid = 17 then pure (.str ([0x5c, 0x78] ++ strBytes (hexOf data)))   -- fmt.Sprintf("\\x%x", data)
   else if oid = 18 then do pure (.str (← sliceTo data 1))
   else if oid = 19 then pure (.str (cstring data 64))
   else if oid = 21 then do pure (.int (toSigned 16 (← uN 2 data 0)))
